@@ -2625,6 +2625,18 @@ impl Prop for C07 {
         });
 
         lap("typed", sh);
+        // (b4) the wide generator of C08 (whole statement and built-in repertoire, REDIM / REDIM SHARED, files, handlers,
+        // planted ill-typed sub-expressions): here every program is an input of parse + check, accepted or not
+        let n = sh.share(tier.pick(12_000, 200_000));
+        sh.search(8, n, 60, 500, |sh, tape| {
+            let mut t = Tape::new(tape);
+            let mischief = *t.pick(&[0u32, 30, 80]);
+            let used = t.used();
+            let (text, _) = crate::props::c08::W::new(&tape[used.min(tape.len())..]).program(10, mischief);
+            check_text(sh, "wide", &text)
+        });
+
+        lap("wide", sh);
         // (c) corpus: this worker's share of the accepted programs (loaded once)
         let all = crate::corpus::accepted();
         sh.note("corpus_accepted_programs", json!(if sh.shard == 0 { all.len() } else { 0 }));
